@@ -58,6 +58,9 @@ func posExec(cs fw.Case) *fw.Fail {
 			fw.TallyNontrivial()
 			return nil
 		}
+		// positions belong to the program, not to the process: another source parsed in between
+		// (different newline layout) must not change them
+		_ = impl.Parse("\n\n# other\n\nprint 1\n\n\nprint 2 +\n\n")
 		dump, err := impl.Dump(whole.Prog)
 		if err != nil {
 			return fw.Failf("Dump succeeds", "%v", err)
@@ -77,9 +80,14 @@ func posExec(cs fw.Case) *fw.Fail {
 		}
 		// every recorded position is the end offset of a token of the source
 		// run before and after dump+load: identical error text and warnings (positions survive)
+		fresh := impl.Interpret(src)
 		var o1, l1 bytes.Buffer
 		p1, _ := bcl.Parse([]byte(src), "input", bcl.OptOutput(&o1), bcl.OptLogger(&l1))
+		_ = impl.Parse("\n# another\n\n\n\nprint 3\nprint )\n")
 		_, _, e1 := bcl.Execute(p1)
+		if got, want := fmt.Sprintf("err=%v log=%q", e1, l1.String()), fmt.Sprintf("err=%v log=%q", fresh.Err, fresh.Log); got != want {
+			return fw.Failf("error and warning positions unaffected by other parses in between: "+fw.Trunc(want, 300), "%s", fw.Trunc(got, 300))
+		}
 		after, lerr := impl.LoadExec(dump)
 		if lerr != nil {
 			return fw.Failf("dump loads", "%v", lerr)
